@@ -50,6 +50,11 @@ def run(ctx, rep):
     rep.rule('C07.4', 'a loop without a suspension point that retries an Option-returning step leaves the loop when the step '
                       'yields None (no busy loop on a step that made no progress)')
     sync_loop_rule(f, rep)
+    # C07.5: an entry whose loader (or user) is suspended is in use; a selection that does not look at the reference count
+    # evicts it while unused entries exist, and the loader's re-lookup misses: Err only because others were in flight
+    from . import evict
+    from ..interp import Program as _PE
+    evict.presence(f, rep, 'C07.5', evict.find_pops(f, _PE(f)))
     rep.assume('all tasks of one device run on one thread (futures are !Send): interleaving only at awaits')
     rep.assume('futures_locks::RwLock admits readers unless a writer holds: R-R never conflicts')
     rep.assume('a host cluster is a data, L2-table or refblock cluster: per-cluster locks of different kinds are distinct')
